@@ -21,7 +21,9 @@ struct SockClientThread : public Thread
 	{
 		_server->serve(_client);
 		_client.close();
+		ASL_VERIF_POINT(ASL_VP_SRV_CLIENT_DONE_PRE, _server);
 		--_server->_numClients;
+		ASL_VERIF_POINT(ASL_VP_SRV_CLIENT_DONE_POST, 0);
 		delete this;
 	}
 };
@@ -113,18 +115,23 @@ void SocketServer::startLoop()
 			for (int i = 0; i < n; i++)
 			{
 				Socket client = _sockets.activeAt(i).accept();
+				ASL_VERIF_POINT(ASL_VP_SRV_ACCEPTED, &client);
 				++_numClients;
 				if (_sequential) {
 					serve(client);
 					client.close();
+					ASL_VERIF_POINT(ASL_VP_SRV_CLIENT_DONE_PRE, this);
 					--_numClients;
+					ASL_VERIF_POINT(ASL_VP_SRV_CLIENT_DONE_POST, this);
 				}
 				else
 					new SockClientThread(this, client);
 			}
 		}
+		ASL_VERIF_POINT(ASL_VP_SRV_STOP_CHECK, this);
 		if(_requestStop || n < 0)
 		{
+			ASL_VERIF_POINT(ASL_VP_SRV_LOOP_EXIT, this);
 			_running = false;
 			break;
 		}
